@@ -1481,8 +1481,10 @@ class FileBuilder:
                 os.mkdir(parent)
             except FileExistsError:
                 continue
-            except OSError:
-                # Don't leave behind the parents we just created
+            except (OSError, ValueError):
+                # Don't leave behind the parents we just created. (os.mkdir
+                # raises a ValueError rather than an OSError if the filename
+                # contains a null character.)
                 FileBuilder._remove_empty_dirs(made_dirs)
                 raise
             made_dirs.append(parent)
